@@ -23,9 +23,7 @@
 //! A trailing `class=<n>` token (written by search mode) is ignored when parsing.
 //! Kept out of the generated histories because they belong to other properties: on a PRIMARY KEY table a
 //! re-executed prepared INSERT with a key below an earlier one leaves the pk index unsorted (WHERE k = x then
-//! misses rows), and `SELECT c, k .. ORDER BY k` returns the columns in table order; INSERTs after a reopen
-//! mostly fail ("key already exists", the row counter restarts at 1) - the model knows that one - but a
-//! re-executed prepared INSERT after a reopen appends its row key unchecked (duplicate row keys in the table B-tree).
+//! misses rows), and `SELECT c, k .. ORDER BY k` returns the columns in table order.
 use std::io::Write as _;
 use std::panic::AssertUnwindSafe;
 use turdb::storage::toast as ts;
@@ -875,12 +873,9 @@ fn histories(rng: &mut Rng, thorough: bool) -> Vec<(String, &'static str)> {
         let rsize = |r: &mut Rng| -> usize { match r.below(10) { 0..=3 => r.below(40) as usize, 4..=6 => *r.pick(&[999usize, 1000, 1001, 1002, 1500]), 7 => *r.pick(&[3999usize, 4000, 4001, 8001]), 8 => 4000 + r.below(9000) as usize, _ => r.below(1300) as usize } };
         for _ in 0..nops {
             match rng.below(10) {
-                0..=3 if !reopened || rng.chance(1, 8) => {
+                0..=3 if !reopened || rng.chance(1, 3) => {
                     let k = if pk && rng.chance(1, 2) { next_k + 3 } else { next_k }; next_k = k + 1; live.push(k); let sz = rsize(rng);
-                    // after a reopen only the literal / parameter paths: a re-executed prepared INSERT appends its row key
-                    // unchecked (BTree::insert_append) and the restarted row counter then duplicates row keys (not this property)
-                    let p = if reopened { *rng.pick(&['L', 'P']) } else { pick_path(rng) };
-                    ops.push(format!("I{}:{}={}", p, k, var_token(rng, blob, sz)));
+                    ops.push(format!("I{}:{}={}", pick_path(rng), k, var_token(rng, blob, sz)));
                 }
                 0..=6 if !live.is_empty() => { let k = *rng.pick(&live); let sz = rsize(rng); ops.push(format!("U{}:{}={}", pick_path(rng), k, var_token(rng, blob, sz))); }
                 7 if !live.is_empty() => { let i = rng.below(live.len() as u64) as usize; let k = live.remove(i); ops.push(format!("D:{}", k)); }
